@@ -317,8 +317,15 @@ def run_for_property(prop, tier, seed, plan, env):
                 v = hist_to_vector(ex["cfg"], ex["hist"], vid, fam, cont, n)
                 by_build.setdefault(b, []).append(v)
                 pred[vid] = ex["hist"]
+        # cross-cutting properties replay a deterministic sample per module and build in the quick tier
+        cap = None
+        if tier == "quick" and len(modules) > 2:
+            cap = 5000
         jobs = []
         for b, vs in by_build.items():
+            if cap and len(vs) > cap:
+                step = len(vs) / float(cap)
+                vs = [vs[int(i * step)] for i in range(cap)]
             nsh = max(1, min(6, len(vs) // 2000 + 1))
             for sh in range(nsh):
                 part = vs[sh::nsh]
